@@ -18,6 +18,7 @@
 (*   "undecodable" | "dirnamed" | "dangling" | "unserialisable"  faults    *)
 (*   "faultDefines" a fault that strikes AFTER the file's custom property  *)
 (*               x was collected (unserialisable CSS with a :root block)   *)
+(*   "unencodable" | "outdir"  the output cannot be written (write fault)  *)
 (*   "cm"        a file whose name ends in _cm.css (never an input)        *)
 (*   "none"      slot unused                                               *)
 (* SharedTable = TRUE models the regression "table hoisted out of the      *)
@@ -27,7 +28,7 @@ EXTENDS Integers, Sequences, FiniteSets, TLC, BatchProps
 CONSTANTS NF, SharedTable, KeepCmInputs, LeakOnFault
 Slots == 1..NF
 Valid == ValidKinds
-Faults == FaultKinds
+Faults == FaultKinds \cup WriteFaultKinds     \* both raise inside the per-file try/except (parse / serialise / write)
 Kinds == Valid \cup Faults \cup {"cm", "none"}
 
 VARIABLES tree, order, pos, table, outs, errs, runNo, outs1
